@@ -458,6 +458,33 @@ def bounded_writers(ctx, b):
             except parsers.FormatError as ex:
                 ok, detail = False, {"writer": name, "spans": spans, "format_error": str(ex)}
             b.case((name, tuple(spans)), ok, detail, sample={"writer": name, "spans": spans, "output": out[:300]})
+    # language options and an empty language next to the written one do not take cues away: every caption of the written
+    # language keeps its timed cue
+    for i in range(4 if not ctx.thorough else 20):
+        k = rng.choice([1, 2, 3])
+        pts = sorted(rng.randrange(0, 5000 * US) // 1000 * 1000 for _ in range(2 * k))
+        spans = [(pts[2 * j], pts[2 * j + 1]) for j in range(k)]
+        mk = lambda extra: CaptionSet(dict([("en-US", CaptionList([Caption(s_, e_, [T(f"cue {j}")]) for j, (s_, e_) in enumerate(spans)]))] + extra))
+        variants = [("alone", mk([]), {}), ("empty_language_after", mk([("de-DE", CaptionList())]), {}),
+                    ("two_languages", mk([("fr-FR", CaptionList([Caption(1000, 2000, [T("fr")])]))]), {})]
+        for vname, cs, _ in variants:
+            calls = [("webvtt", {}), ("webvtt", {"lang": "en-US"}), ("sami", {})] + \
+                    [(nm, kw) for nm in ("dfxp", "legacy", "single") for kw in ({}, {"force": "en-US"}, {"force": "en-us"}, {"force": "EN-US"}, {"force": "zz"})]
+            for name, kw in calls:
+                if name == "legacy" and kw.get("force") in ("en-us", "EN-US", "zz") and vname != "alone":
+                    continue        # (the legacy writer writes the LAST language under the forced code when it is absent)
+                def opt(name=name, kw=kw, cs=cs, spans=spans):
+                    out = writers[name].write(cs, **kw)
+                    if name == "webvtt":
+                        got = [(cu["start"], cu["end"]) for cu in parsers.parse_webvtt(out)]
+                    elif name == "sami":
+                        got = [(cu["start"], spans[j][1]) for j, cu in enumerate(parsers.parse_sami(out)["cues"].get("en-US", []))]
+                    else:
+                        d = parsers.parse_dfxp(out)
+                        lang_key = "en-US" if "en-US" in d["cues"] else (d["langs"][0] if d["langs"] else None)
+                        got = [(cu["start"], cu["end"]) for cu in d["cues"].get(lang_key, [])]
+                    return got == list(spans), {"writer": name, "options": kw, "languages": cs.get_languages(), "parsed": got, "expected": spans}
+                b.guard(("options", i, vname, name, tuple(kw.items())), opt, sample={"writer": name, "options": kw, "languages": vname, "spans": spans})
     # histories: captions that were printed / formatted / written, then re-timed (adjust_caption_timing, or their times
     # assigned), are written with their NEW times by every writer
     for i in range(6 if not ctx.thorough else 40):
